@@ -193,7 +193,9 @@ def _run_path(m: Machine, ctx: Ctx, module, cls, fnode, contract, key, res, case
     except PyRaise as e:
         outcome = ("raise", e)
     except (PyBreak, PyContinue):
-        raise Unsupported("break/continue outside loop")
+        if getattr(fnode, "region_src", None) is None:
+            raise Unsupported("break/continue outside loop")
+        outcome = ("return", NONE)  # a block contract: `continue`/`break` of the enclosing loop leaves the region normally
 
     if getattr(contract, "check_frame", False):
         for msg in _frame_check(m, env, contract):
